@@ -193,9 +193,10 @@ def h1_view(raw: bytes, closed: bool):
     elif cls:
         if len(set(cls)) == 1 and cls[0].isdigit():
             out["has_len"] = True
-            n = int(cls[0])
-            out["delta"] = len(rest) - n
-            body = rest[:n]
+            out["delta"] = len(rest) - int(cls[0])
+            # the HTML view is taken of everything mitmproxy sent as this page; a wrong length is judged by the framing
+            # clause, not by tokenising a truncated page
+            body = rest
         else:
             out["parsed"] = False
     return out, body
@@ -492,8 +493,11 @@ class Check(core.PropertyCheck):
     def model_runs(self, ctx):
         runs = [ctx.model_check(self.MODEL, self.model_constants(ctx.tier), dump=True)]
         if not ctx.quick:
+            # payloads of up to three atoms over the markup-active atoms (statistics only; TLC enumerates the Request
+            # quantifier in every state, so the payload set must stay in the hundreds)
             big = ctx.model_check(self.MODEL, self.model_constants(ctx.tier) | {"MaxAtoms": 3,
-                                  "Atoms": self._atoms(ATOMS_QUICK)}, dump=False, tag="_big")
+                                  "Atoms": self._atoms(("tag", "cmt", "copy", "amp", "quot", "uni"))}, dump=False,
+                                  tag="_big")
             runs.append(big)
             # design level: the monitor rejects a format_error without escaping and a text/plain declaration
             for tag, kw, clause in (("_noesc", {"Escape": False}, "C12.unescaped_reflection"),
